@@ -154,6 +154,7 @@ Proof.
   unfold step in H. apply bind_inv in H. destruct H as ([m1 res] & w1 & e1 & e2 & Hs & H & ->).
   apply ret_inv in H. destruct H as (-> & _ & ->). rewrite app_nil_r. cbn [o_removed o_machine o_result].
   unfold send_event in Hs. change (String.eqb Ev_Timeout Ev_Done) with false in Hs. cbv iota in Hs.
+  destruct (next_state t (m_cur m) Ev_Timeout) eqn:Hnx; [|unfold cancel_path in Hc; rewrite Hnx in Hc; discriminate Hc].
   pose proof (ptl_cancel _ _ _ _ _ _ _ Hc S Hs) as Hcan. split; [|exact Hcan].
   destruct Hcan as (-> & _). reflexivity.
 Qed.
@@ -175,6 +176,9 @@ Proof.
   destruct (st_action sd) as [act|]; [|discriminate].
   match goal with X : st_fail_on_recover sd = true |- _ => rewrite X in Hs end.
   unfold send_event in Hs. change (String.eqb Ev_Failed Ev_Done) with false in Hs. cbv iota in Hs.
+  destruct (next_state t (m_cur m) Ev_Failed) eqn:Hnx;
+    [|match goal with X : cancel_path t terminal (m_cur m) Ev_Failed = true |- _ =>
+        unfold cancel_path in X; rewrite Hnx in X; discriminate X end].
   match goal with X : cancel_path t terminal (m_cur m) Ev_Failed = true |- _ =>
     pose proof (ptl_cancel _ _ _ _ _ _ _ X S Hs) as Hcan end.
   split; [|exact Hcan]. destruct Hcan as (-> & _). reflexivity.
